@@ -15,7 +15,7 @@ func init() {
 			"the consumer hands over only non-nil loaded slots, clears a slot before the head is published, stops at the first unpublished slot and advances the head once per delivered element; the stripe table and stripe slots are written only inside the busy region, which is always left; expansion copies every existing stripe; draining happens only under the eviction lock; "+
 			"the status returned by Add influences nothing but the drain-scheduling decision. NOT decided: absence of loss/duplication over all interleavings.",
 		[]string{"sync/atomic operations are sequentially consistent", "a single consumer drains (decided by C17.single)"},
-		ruleC17Reserve, ruleC17Drain, ruleC17Busy, ruleC17Copy, ruleC17Single, ruleC17NoEffect, ruleC17OnceAdd, ruleC17Current, ruleC17Walk, ruleC17Init, ruleC17Bound, ruleC17Delivered)
+		ruleC17Reserve, ruleC17Drain, ruleC17Busy, ruleC17Copy, ruleC17Single, ruleC17NoEffect, ruleC17OnceAdd, ruleC17Current, ruleC17Walk, ruleC17Init, ruleC17Bound, ruleC17Delivered, ruleC17DrainAll)
 }
 
 const lossyPkg = "internal/lossy"
